@@ -53,6 +53,7 @@ def run(ctx):
   from sa import pitfalls
   regex_groups_into_tables(ctx)
   pitch_class_wraps_both_ways(ctx)
+  bass_is_min_over_all_pitches(ctx)
   pitfalls.apply(ctx, 'PITFALL', [fi for q, fi in sorted(mi.all_functions.items()) if '.' not in q], ['falsy-zero', 'misaligned-index', 'previous-wraps'], {
       'previous-wraps': 'the amount left over for the accidental is then reduced by a whole octave\'s worth of steps: the root / bass is spelled on the wrong letter (Db comes out as C)',
       'misaligned-index': 'the root written into the chord symbol is then not the root the chosen kind was found for: the named chord does not contain the supplied pitches',
@@ -713,6 +714,40 @@ def escapes(ctx, mi, T):
                pname_, sh_[0][0], sh_[0][1], sh_[0][1], sh_[0][1], sh_[0][0]) if sh_ else '', construct='%s: longest alternative first' % pname_, definite=True)
   ok = set(T['_DEGREE_OFFSETS']) == set(range(1, 8))
   ctx.ob('KEYERR/degree-offsets', mi, mi.assigns['_DEGREE_OFFSETS'][0], ok, 'normalised degrees 1..7 are exactly the keys of _DEGREE_OFFSETS' if ok else '_DEGREE_OFFSETS keys are %s' % sorted(T['_DEGREE_OFFSETS']), construct='_DEGREE_OFFSETS keys = 1..7')
+
+
+def bass_is_min_over_all_pitches(ctx, rule='SHAPE/bass-over-all-pitches'):
+  """"the bass is the lowest supplied pitch": when the minimum is tracked in a loop (`if p < lowest: lowest = p`) instead of taken with
+  min(pitches), every pitch must reach the comparison - a `continue` earlier in the loop body (skipping octave doublings, say) hides
+  pitches from it, and the lowest one may be among them."""
+  fi = ctx.func('chord_symbols_lib:pitches_to_chord_symbol')
+  fn = fi.node
+  pm = U.parents(fn)
+  n = 0
+  for st in U.walk_stmts(fn):
+    if not (isinstance(st, ast.Assign) and len(st.targets) == 1 and isinstance(st.targets[0], ast.Name) and isinstance(st.value, ast.Name)):
+      continue
+    loops = U.enclosing_loops(fn, st)
+    if not loops or not isinstance(loops[-1], ast.For) or not isinstance(loops[-1].target, ast.Name) or loops[-1].target.id != st.value.id:
+      continue
+    acc = st.targets[0].id
+    if not any(isinstance(t, ast.Compare) and isinstance(t.ops[0], (ast.Lt, ast.Gt, ast.LtE, ast.GtE)) and {acc, st.value.id} <= set(x.id for x in ast.walk(t) if isinstance(x, ast.Name))
+               for t, _p in [(x, True) for tt, _q in U.enclosing_tests(fn, st) for x in ast.walk(tt)]):
+      continue
+    loop = loops[-1]
+    n += 1
+    top = st
+    while pm.get(id(top)) is not loop:
+      top = pm.get(id(top))
+    before = loop.body[:next(i for i, x in enumerate(loop.body) if x is top)]
+    early = [x for b in before for x in ast.walk(b) if isinstance(x, (ast.Continue, ast.Break)) and U.enclosing_loops(fn, x)[-1] is loop]
+    cons = 'every pitch reaches the running minimum %s' % acc
+    ctx.ob(rule, fi, early[0] if early else st, not early, 'no pitch is skipped before the comparison with %s' % acc if not early else
+           'the %s at line %d%s skips the rest of the loop body before `%s`: the pitches it skips are never compared, so the lowest supplied pitch - when it is one of them - is not the bass '
+           'of the name' % (type(early[0]).__name__.lower(), early[0].lineno, ''.join(' (taken when %s)' % norm_text(t)[:50] for t, p in U.path_conditions(fn, early[0])[-1:] if p), norm_text(st)),
+           construct=cons, definite=True)
+  if n == 0:
+    ctx.ob(rule, fi, fn, True, 'no running minimum is tracked in a loop of pitches_to_chord_symbol', construct='every pitch reaches the minimum')
 
 
 def pitch_class_wraps_both_ways(ctx, rule='PITCHCLASS/wrap-both-ways'):
